@@ -70,6 +70,8 @@ Step(e, ev) ==
                                        /\ UNCHANGED <<lst, backlog, st, sent, recv>>
            ELSE IF ev.res = "timeout" THEN ev.op = "read_to" /\ NotEarly(ev) /\ UNCHANGED <<lst, backlog, st, sent, recv>>  \* Stream!ReadTimeout
            ELSE FALSE
+      [] ev.op = "flush" ->            \* Write::flush of a stream: nothing is buffered above the socket, always Ok
+           ev.res = "ok" /\ st[e] = "connected" /\ UNCHANGED <<lst, backlog, st, sent, recv>>
       [] ev.op = "probe" ->            \* a probe call that found an answer after all: no effect on this connection
            UNCHANGED <<lst, backlog, st, sent, recv>>
       [] ev.op = "close" ->
